@@ -1,6 +1,6 @@
 (* C05 -- Protobuf encode/decode round trip and encoded_len agreement.
    Only statements, each closed by [exact] of a lemma proved in Proofs/, with Print Assumptions beneath. *)
-From PVPb Require Import Wire Codec Msg Proofs.VarintP Proofs.WireP Proofs.CastP Proofs.CodecP.
+From PVPb Require Import Wire Codec Msg Proofs.VarintP Proofs.WireP Proofs.CastP Proofs.CodecP Proofs.MsgLenP.
 Open Scope Z_scope.
 
 (* every u64, every decode path (fast path / unrolled slice path / byte-at-a-time slow path; which one
@@ -94,3 +94,17 @@ Theorem C05_packed_len : forall m tag vs, numeric_mod m = true -> tag_ok tag ->
   encoded_len_packed m tag vs = zlen (encode_packed m tag vs).
 Proof. exact encoded_len_packed_correct. Qed.
 Print Assumptions C05_packed_len.
+
+(* ---- message level.  C05_msg_len: for every well-formed schema, both settings of pb-encode-default-value, every
+   typed value of every message (nested messages, repeated, maps with default skipping, oneofs): the generated
+   encoded_len() is the number of bytes the generated encode_raw() writes, whenever those bytes fit in a usize *)
+Theorem C05_msg_len : forall edv sc, schema_ok sc = true -> forall d i v,
+  wt_msg d sc i v = true -> zlen (enc_msg edv d sc i v) < two64 -> len_msg edv d sc i v = zlen (enc_msg edv d sc i v).
+Proof. exact msg_len_correct. Qed.
+Print Assumptions C05_msg_len.
+
+(* NOT PROVED (validated by the generated-message correspondence and the reference codec on every run):
+   C05_msg_rt : schema_ok sc -> wt_msg d sc i v = true -> lossless v ->
+                msg_decode sc i (mkR (enc_msg edv d sc i v) a) = OOk v (mkR [] _)
+   ([lossless] excludes the two places where the encoder itself drops information: -0.0 as a float / double map value
+   without pb-encode-default-value, finding F-05a). *)
